@@ -44,6 +44,9 @@ type Spec[C any] struct {
 	// Journal: write every case to VERIF_JOURNAL before running it, so that a crash of the
 	// whole process (panic in a goroutine of the code under test) still leaves a replayable case.
 	Journal bool
+	// RegressRepeat: how often each regression/replay case is executed (for code under test whose
+	// behaviour depends on map iteration order); default 1.
+	RegressRepeat int
 }
 
 // Replay is the format of replay and regression files.
@@ -294,6 +297,9 @@ func runReplay[C any](t *testing.T, s Spec[C]) {
 		t.Skip("replay is for another part")
 	}
 	known, err := runOne(s, c)
+	for i := 1; i < s.RegressRepeat && err == nil; i++ {
+		known, err = runOne(s, c)
+	}
 	if err != nil {
 		fmt.Printf("REPLAY-FAIL property=%s part=%s: %v\n", s.Property, s.Part, err)
 		t.Fatalf("replay fails: %v", err)
@@ -329,6 +335,9 @@ func runRegress[C any](t *testing.T, s Spec[C]) {
 		}
 		st.Evaluations++
 		known, err := runOne(s, c)
+		for i := 1; i < s.RegressRepeat && err == nil; i++ {
+			known, err = runOne(s, c)
+		}
 		if known != "" {
 			st.ExcludedKnown[known]++
 		}
